@@ -27,6 +27,8 @@ type funcResult struct {
 }
 
 // verifyFuncs generates the obligations for the named functions (generation is sequential, solving parallel).
+var devProp string
+
 func verifyFuncs(w *World, names []string, findings []*Finding, tmo time.Duration, scratch string, verbose bool) []*funcResult {
 	var out []*funcResult
 	for _, n := range names {
@@ -40,6 +42,7 @@ func verifyFuncs(w *World, names []string, findings []*Finding, tmo time.Duratio
 		}
 		fv := newFV(w, fi)
 		fv.findings = findings
+		fv.prop = devProp
 		t0 := time.Now()
 		err := fv.verify()
 		out = append(out, &funcResult{fi: fi, fv: fv, err: err, secs: time.Since(t0).Seconds()})
@@ -51,10 +54,7 @@ func verifyFuncs(w *World, names []string, findings []*Finding, tmo time.Duratio
 			all = append(all, r.fv.obls...)
 		}
 	}
-	parallelDo(16, len(all), func(i int) {
-		o := all[i]
-		o.Result = solve(scratch, o.Name, o.Query, tmo, o.Vacuity)
-	})
+	solveAll(scratch, all, tmo)
 	return out
 }
 
@@ -84,6 +84,7 @@ func cmdVerify(args []string) {
 	keep := fs.String("keep", "", "directory to keep SMT files of undischarged obligations")
 	verbose := fs.Bool("v", false, "verbose")
 	dump := fs.String("dump", "", "dump the query of the obligation with this name substring")
+	fs.StringVar(&devProp, "prop", "", "verify the contract slice of this property only")
 	fs.Parse(args)
 	rest := fs.Args()
 	if len(rest) == 0 {
